@@ -147,6 +147,9 @@ def run(ctx):
             later = o.call_sites('re:^options::Options::load_and_validate_metadata(_in_version)?$')
             for s in later:
                 lib.result_guards(ctx, '1f continue-only-if-locked', o, [top_site], s, 'metadata is loaded only on the Ok outcome of the lock attempt')
+        # ------------------------------------------------ 1l. the lock is on the file that is at the path (F72)
+    lock_identity(ctx, F)
+    if o:
         # ------------------------------------------------ 2. held for the handle's lifetime
         adt = F.adts.get('db::DbInner')
         fidx = [f['name'] for f in adt['variants'][0]['fields']].index('lock_file') if adt and 'lock_file' in [f['name'] for f in adt['variants'][0]['fields']] else None
@@ -280,3 +283,39 @@ def run(ctx):
                      'every file modification of the entry point is preceded on all paths by the opening of a database handle (which takes the directory lock or fails with Error::Locked)')
     ctx.ob('3a1 offline-entry-points', 'anchor', '-', 'migrate, clear_column and the three column administration calls were found', n3 == 5, 'found %d' % n3)
 
+
+
+def lock_identity(ctx, F):
+    """A lock file is opened by path and locked a moment later. In between the directory can have been removed and created again by
+    a live handle (migrate does that with its private directories, under their lock): the lock then sits on an orphaned file and
+    excludes nobody. Every place that takes the advisory lock therefore checks, before it touches anything else, that the locked
+    file is still the file at the path (same device and inode) and gives up with Locked otherwise."""
+    checks = set()
+    for p, b in F.bodies.items():
+        names = [n for _, t in b.calls() for n in call_names(t)]
+        if sum(1 for n in names if re.search(r'MetadataExt::ino$|MetadataExt>::ino$', n)) >= 2 and any(re.search(r'^std::fs::metadata$|Path::metadata$', n) for n in names) \
+                and any(re.search(r'File::metadata$', n) for n in names):
+            checks.add(p)
+    sites = []
+    for p, b in sorted(F.bodies.items()):
+        for s in b.call_sites(*LOCK):
+            if s in b.normal_blocks():
+                sites.append((b, s))
+    ctx.ob('1l0 lock-sites', 'anchor', '-', 'the places that take the advisory lock (DbInner::open, the removal of a private migration directory) and the identity check were found',
+           len(sites) >= 2 and len(checks) >= 1, 'lock sites %s, identity checks %s' % ([(b.path, s) for b, s in sites], sorted(checks)))
+    reach_fs = F.transitive_callers([b.path for b in F.bodies.values() if any(is_fs_prim(t) for _, t in b.all_calls())])
+    for b, s in sites:
+        cs = [bi for bi, t in b.calls() if bi in b.normal_blocks() and any(n in checks for n in call_names(t))]
+        bad = []
+        for bi, t in b.calls():
+            if bi not in b.normal_blocks() or bi == s or bi in cs or bi not in b.reaches(s):
+                continue
+            names = call_names(t)
+            if not (is_fs_prim(t) or any(n in reach_fs for n in names if n in F.bodies)):
+                continue
+            if b.find_path(list(b.succ(s)), {bi}, removed=set(cs), sensitive=False) is not None:
+                bad.append('%s at %s' % (names[0], b.loc(bi)))
+        w = lib.ok_return_unreachable_avoiding(b, cs, sources=[s]) if cs else ['?']
+        ctx.ob('1l locked-file-is-the-file-at-the-path %s' % b.path, 'K2-order', b.path,
+               'after the lock was taken, the identity of the locked file (device, inode) is compared with the file at the path before anything else is touched, on every path',
+               bool(cs) and not bad and w is None, 'no identity check after the lock' if not cs else ('file access before the check: %s' % bad if bad else 'success path without the check: %s' % lib.short_path(b, w)), b.loc(s))
